@@ -118,6 +118,20 @@ TRepro ==
         /\ Diag("DRIFT", e.api # "public" \/ e.shallow_workers <= 1, [kind |-> "public entry point ran an iteration below depth 3 with more than one worker", fen |-> e.fen, depth |-> e.depth, workers |-> e.shallow_workers])
   /\ UNCHANGED <<pos, cur>>
 
+\* C18 below the front end: what `ucinewgame` does to the searcher is to hand the next search no memory. A search started that
+\* way after other searches ran in the process must be the search a fresh process runs (same seed): anything else means the
+\* searcher keeps state outside the memory that ucinewgame drops.
+TNewGame ==
+  /\ IsEvent("NewGame")
+  /\ LET e == Rec[l]
+         RECURSIVE FirstDiff2(_, _, _)
+         FirstDiff2(a, b, i) == IF i > Len(a) /\ i > Len(b) THEN 0 ELSE IF i > Len(a) \/ i > Len(b) THEN i ELSE IF a[i] # b[i] THEN i ELSE FirstDiff2(a, b, i + 1)
+     IN /\ Diag("C18", FirstDiff2(e.used, e.fresh, 1) = 0,
+                 [kind |-> "a search given no memory after earlier games differs from the same search in a fresh process", fen |-> e.fen, seed |-> e.seed, depth |-> e.depth,
+                  index |-> FirstDiff2(e.used, e.fresh, 1), earlier_searches |-> e.earlier])
+        /\ Diag("C18", Len(e.fresh) > 0, [kind |-> "TOOL: empty run", fen |-> e.fen])
+  /\ UNCHANGED <<pos, cur>>
+
 \* `weechess evaluate`: the lines it prints (the short "Peg" spelling of ChessText.tla) must be playable from the
 \* position, and a position with a legal move gets at least one line
 RECURSIVE PegFollow(_, _, _)
@@ -136,7 +150,7 @@ TCliEval ==
   /\ UNCHANGED <<pos, cur>>
 
 TraceInit == l = 1 /\ pos = StartPos /\ cur = NoSearch
-TraceNext == TSearchStart \/ TReport \/ TSkip \/ TSearchEnd \/ TRepro \/ TCliEval
+TraceNext == TSearchStart \/ TReport \/ TSkip \/ TSearchEnd \/ TRepro \/ TCliEval \/ TNewGame
 Accepted == IF TLCGet("stats").diameter - 1 = Len(Rec) THEN PrintT(<<"ACCEPTED", Len(Rec)>>)
             ELSE PrintT(<<"STUCK", TLCGet("stats").diameter, Len(Rec)>>)
 =============================================================================
